@@ -218,18 +218,17 @@ def run(ctx):
     from tickermodel import TickerModel
     from c10 import retain_table
     T = TickerModel(ctx)
-    sweeps = [F.fn(o["args"][0][1]) for o in T.ops if o["kind"] == "retain" and o["args"][0][0] == "agg" and F.fn(o["args"][0][1]) is not None]
+    sweeps = [(F.fn(o["args"][0][1]), o["args"][0]) for o in T.ops if o["kind"] == "retain" and o["args"][0][0] == "agg" and F.fn(o["args"][0][1]) is not None]
     ctx.floor("R09.6", "sweeper retain predicates", len(sweeps), 1)
-    for f in sweeps:
+    for f, agg in sweeps:
         rows, bad, nowcap = retain_table(F, f)
         bad = [b_ for b_ in bad if "hook" not in b_]
         ctx.check(not bad and {r_[0] for r_ in rows} == {True, False}, "R09.6", "%s|retain-iff-now-le-expiry" % f.name,
                   "the sweeper keeps an entry iff now <= expiry, i.e. evicts iff now > expiry: the same boundary as has_passed", f.where(), "; ".join(sorted(set(bad))[:3]))
-        cc = closure_captures(F, f.name)
-        if cc:
-            nowe = cc[1].get(nowcap or "now")
-            ctx.check(nowe is not None and is_call_to(nowe, "Clock::now"), "R09.6", "%s|now-is-clock-now" % f.name,
-                      "the sweeper's `now` is read from the clock once per sweep", f.where(), fmt(nowe) if nowe else "")
+        # the captured `now`, in the terms of the sweeping thread (helpers between the thread loop and the retain inlined)
+        nowe = dict(agg[3]).get(nowcap or "now")
+        ctx.check(nowe is not None and is_call_to(nowe, "Clock::now"), "R09.6", "%s|now-is-clock-now" % f.name,
+                  "the sweeper's `now` is read from the clock once per sweep", f.where(), fmt(nowe) if nowe else "")
 
 
 def no_overwrite(ctx, RULE):
